@@ -152,6 +152,41 @@ pub fn run(rep: &'static Report) {
             println!("  {} [{}] P≤{}: {} schedules, {} quiescent states, {} schedules end wrong", c.sc.name, pname, bound, stats.schedules, q.len(), w);
         }
     }
+    // conformance with the real server (free-running, decides nothing by itself): initialize on a
+    // workspace whose F exists on disk and immediately open F with a different buffer, without
+    // waiting for the scan; afterwards the server must describe the buffer exactly once
+    let runs = if thorough { 120 } else { 24 };
+    let mut conf_ok = 0u64;
+    for i in 0..runs {
+        let (file, disk, buf) = if i % 2 == 0 { ("test_f.py", T_DISK, T_BUF) } else { ("conftest.py", C_DISK, C_BUF) };
+        let sc = crate::e5::Scratch::new("c10");
+        let ws = sc.path().join("ws");
+        // some extra files so that the scan is still busy when the notification arrives
+        for k in 0..(i % 7) * 20 {
+            crate::e5::write_file(&ws, &format!("pkg{}/test_more{}.py", k % 5, k), G_TEXT);
+        }
+        crate::e5::write_file(&ws, file, disk);
+        let mut srv = crate::e5::Server::spawn(&[]);
+        if srv.initialize(Some(&ws)).is_err() {
+            rep.machinery_error("C10 conformance: server did not initialise");
+            continue;
+        }
+        let uri = format!("file://{}/{}", ws.display(), file);
+        srv.did_open(&uri, buf);
+        let _ = srv.wait_scan_complete();
+        let _ = srv.wait_diagnostics(&uri);
+        let sy = srv.request("textDocument/documentSymbol", json!({"textDocument": {"uri": uri}}));
+        let mut names: Vec<String> = sy.ok().and_then(|v| v.as_array().cloned()).unwrap_or_default().iter().filter_map(|s| s["name"].as_str().map(|x| x.to_string())).collect();
+        names.sort();
+        let want: Vec<String> = if file == "test_f.py" { vec!["lx".into(), "mx".into()] } else { vec!["fx".into(), "hx".into()] };
+        if names == want {
+            conf_ok += 1;
+        } else {
+            rep.violation("real server: after scan ∥ didOpen the document's symbols are not those of the buffer", &format!("{}: symbols {:?}, buffer defines {:?}", file, names, want), || json!({"file": file, "disk": disk, "buffer": buf, "run": i}));
+        }
+        srv.shutdown();
+    }
+    rep.set("real_server_conformance_runs", json!({"runs": runs, "describing_the_buffer_exactly_once": conf_ok}));
     rep.set("states", total_states as u64);
     rep.set("transitions", total_points);
     rep.set("evaluations", total_sched + restored_checked);
